@@ -85,6 +85,7 @@ func (r *retainSink) finish() []section {
 var (
 	probeMsg = []byte{0xff, 'p', 'r', 'o', 'b', 'e'}
 	endMsg   = []byte{0xff, 'e', 'n', 'd'}
+	syncMsg  = []byte{0xff, 's', 'y', 'n', 'c'}
 )
 
 type pipeAddr struct{}
@@ -125,10 +126,15 @@ type subscriber struct {
 	conn      net.Conn
 	probeSeen chan struct{}
 	start     chan struct{}
+	startOnce sync.Once
+	drained   chan struct{} // closed when a sync marker arrives (everything queued before it was received)
+	drainOnce sync.Once
 	done      chan struct{}
 	msgs      [][]byte
 	note      string
 }
+
+func (sb *subscriber) release() { sb.startOnce.Do(func() { close(sb.start) }) }
 
 func (sb *subscriber) run() {
 	defer close(sb.done)
@@ -136,7 +142,13 @@ func (sb *subscriber) run() {
 	for {
 		var m []byte
 		if err := websocket.Message.Receive(sb.ws, &m); err != nil {
-			sb.note = "DROPPED" // closed before the end marker: the handler dropped us, or a timeout
+			// closed before the end marker: the handler cut us off (its queue
+			// for this subscriber overflowed), or a timeout
+			if sb.note == "" {
+				sb.note = "DROPPED"
+			} else {
+				sb.note += "+DROPPED"
+			}
 			if !seen {
 				close(sb.probeSeen)
 			}
@@ -153,6 +165,8 @@ func (sb *subscriber) run() {
 			}
 		case bytes.Equal(m, endMsg):
 			return
+		case bytes.Equal(m, syncMsg):
+			sb.drainOnce.Do(func() { close(sb.drained) })
 		default:
 			sb.msgs = append(sb.msgs, m)
 		}
@@ -180,55 +194,92 @@ func newHandlerSink(fast, lag int) *handlerSink {
 	hs.ln = &pipeListener{ch: make(chan net.Conn), closed: make(chan struct{})}
 	hs.srv = &http.Server{Handler: hs.h}
 	go hs.srv.Serve(hs.ln)
-	addr := "marbl.pipe"
-	for i := 0; i < fast+lag; i++ {
-		sb := &subscriber{lag: i >= fast, probeSeen: make(chan struct{}), start: make(chan struct{}), done: make(chan struct{})}
-		if sb.lag {
-			sb.name = fmt.Sprintf("lagging-subscriber-%d", i)
+	for i := 0; i < fast+lag && hs.err == ""; i++ {
+		if i >= fast {
+			hs.addSub(fmt.Sprintf("lagging-subscriber-%d", i), true, "")
 		} else {
-			sb.name = fmt.Sprintf("subscriber-%d", i)
-		}
-		// An in-memory, unbuffered connection (net.Pipe): the server's send
-		// to a subscriber that is not reading blocks at once, so every further
-		// frame stays in the handler's per-subscriber queue until the
-		// subscriber starts reading.  (TCP with small socket buffers gave the
-		// same effect but drained at 40 ms per window.)
-		tc, err := hs.ln.dial()
-		if err != nil {
-			hs.err = "dial"
-			return hs
-		}
-		tc.SetDeadline(time.Now().Add(80 * time.Second))
-		cfg, _ := websocket.NewConfig("ws://"+addr+"/", "http://localhost/")
-		ws, err := websocket.NewClient(cfg, tc)
-		if err != nil {
-			hs.err = "handshake"
-			return hs
-		}
-		ws.MaxPayloadBytes = 64 << 20
-		sb.ws, sb.conn = ws, tc
-		hs.subs = append(hs.subs, sb)
-		go sb.run()
-	}
-	// The handler registers a subscriber some time after the handshake and
-	// offers no way to observe it: send probe messages until each subscriber
-	// has seen one (subscribers ignore probes afterwards).
-	deadline := time.Now().Add(30 * time.Second)
-	for _, sb := range hs.subs {
-		for waiting := true; waiting; {
-			hs.h.Write(probeMsg)
-			select {
-			case <-sb.probeSeen:
-				waiting = false
-			case <-time.After(2 * time.Millisecond):
-				if time.Now().After(deadline) {
-					hs.err = "subscribe-timeout"
-					return hs
-				}
-			}
+			hs.addSub(fmt.Sprintf("subscriber-%d", i), false, "")
 		}
 	}
 	return hs
+}
+
+// addSub connects one websocket subscriber and waits until the handler has
+// registered it.  An in-memory, unbuffered connection (net.Pipe): the server's
+// send to a subscriber that is not reading blocks at once, so every further
+// frame stays in the handler's per-subscriber queue until the subscriber
+// starts reading.  (TCP with small socket buffers gave the same effect but
+// drained at 40 ms per window.)
+func (hs *handlerSink) addSub(name string, lag bool, note string) {
+	sb := &subscriber{name: name, lag: lag, note: note, probeSeen: make(chan struct{}), start: make(chan struct{}),
+		drained: make(chan struct{}), done: make(chan struct{})}
+	tc, err := hs.ln.dial()
+	if err != nil {
+		hs.err = "dial"
+		return
+	}
+	tc.SetDeadline(time.Now().Add(80 * time.Second))
+	cfg, _ := websocket.NewConfig("ws://marbl.pipe/", "http://localhost/")
+	ws, err := websocket.NewClient(cfg, tc)
+	if err != nil {
+		hs.err = "handshake"
+		return
+	}
+	ws.MaxPayloadBytes = 64 << 20
+	sb.ws, sb.conn = ws, tc
+	hs.subs = append(hs.subs, sb)
+	go sb.run()
+	// The handler registers a subscriber some time after the handshake and
+	// offers no way to observe it: send probe messages until the subscriber
+	// has seen one (subscribers ignore probes afterwards).
+	deadline := time.Now().Add(30 * time.Second)
+	for {
+		hs.h.Write(probeMsg)
+		select {
+		case <-sb.probeSeen:
+			return
+		case <-time.After(2 * time.Millisecond):
+			if time.Now().After(deadline) {
+				hs.err = "subscribe-timeout"
+				return
+			}
+		}
+	}
+}
+
+// resume lets the lagging subscribers read, and returns when each of them has
+// either been cut off or received everything that was queued for it (a sync
+// marker written after the release has come through).
+func (hs *handlerSink) resume() {
+	if hs.err != "" {
+		return
+	}
+	for _, sb := range hs.subs {
+		sb.release()
+	}
+	deadline := time.Now().Add(60 * time.Second)
+	for _, sb := range hs.subs {
+		if !sb.lag {
+			continue
+		}
+		for waiting := true; waiting && time.Now().Before(deadline); {
+			hs.h.Write(syncMsg)
+			select {
+			case <-sb.drained:
+				waiting = false
+			case <-sb.done:
+				waiting = false
+			case <-time.After(2 * time.Millisecond):
+			}
+		}
+	}
+}
+
+// join adds subscribers in mid-stream.
+func (hs *handlerSink) join(n int) {
+	for i := 0; i < n && hs.err == ""; i++ {
+		hs.addSub(fmt.Sprintf("joiner-%d", i), false, "JOINED")
+	}
 }
 
 func (hs *handlerSink) Write(p []byte) (int, error) { return hs.h.Write(p) }
@@ -240,16 +291,25 @@ func (hs *handlerSink) finish() []section {
 	if hs.err != "" {
 		return []section{{name: "handler", note: "harness-error:" + hs.err}}
 	}
-	hs.h.Write(endMsg)
 	var out []section
 	for _, sb := range hs.subs {
-		close(sb.start)
+		sb.release()
 	}
+	deadline := time.Now().Add(85 * time.Second)
 	for _, sb := range hs.subs {
-		select {
-		case <-sb.done:
-		case <-time.After(85 * time.Second):
-			sb.note = "TIMEOUT"
+		// the end marker is queued like a frame: when a subscriber's queue is
+		// full it is dropped, so repeat it until the subscriber has finished
+		for waiting := true; waiting; {
+			hs.h.Write(endMsg)
+			select {
+			case <-sb.done:
+				waiting = false
+			case <-time.After(2 * time.Millisecond):
+				if time.Now().After(deadline) {
+					sb.note += "+TIMEOUT"
+					waiting = false
+				}
+			}
 		}
 		sb.conn.Close() // not ws.Close(): its close frame would block, the server side never reads
 		out = append(out, section{name: sb.name, nw: len(sb.msgs), raw: bytes.Join(sb.msgs, nil), note: sb.note})
